@@ -210,42 +210,50 @@ func (wb *Workbook) parseSheet(path string) (*Sheet, error) {
 func (s *Sheet) Cell(row, col int) string { return strings.TrimSpace(s.Rows[row][col]) }
 
 // SetNumber overwrites (or creates) a cell with a plain number in the sheet XML.
+// The element prefix (none, or "x:" in some SDK workbooks) is taken from the sheet itself.
 func (wb *Workbook) SetNumber(sheet *Sheet, row, col int, value string) error {
 	xmlb := wb.files[sheet.Path]
+	pfx := ""
+	if m := regexp.MustCompile(`<(\w+:)?sheetData`).FindSubmatch(xmlb); m != nil {
+		pfx = string(m[1])
+	}
+	q := regexp.QuoteMeta(pfx)
 	ref := ColName(col) + strconv.Itoa(row)
+	cellXML := func(attrs string) string {
+		return `<` + pfx + `c r="` + ref + `"` + attrs + `><` + pfx + `v>` + value + `</` + pfx + `v></` + pfx + `c>`
+	}
 	// existing cell, with or without content
-	reFull := regexp.MustCompile(`<c r="` + ref + `"([^>]*?)(/>|>.*?</c>)`)
+	reFull := regexp.MustCompile(`(?s)<` + q + `c r="` + ref + `"([^>]*?)(\s*/>|>.*?</` + q + `c>)`)
 	loc := reFull.FindSubmatchIndex(xmlb)
 	if loc != nil {
 		attrs := string(xmlb[loc[2]:loc[3]])
 		attrs = regexp.MustCompile(`\s+t="[^"]*"`).ReplaceAllString(attrs, "")
-		repl := `<c r="` + ref + `"` + attrs + `><v>` + value + `</v></c>`
+		attrs = strings.TrimRight(attrs, " ")
 		out := append([]byte{}, xmlb[:loc[0]]...)
-		out = append(out, repl...)
+		out = append(out, cellXML(attrs)...)
 		out = append(out, xmlb[loc[1]:]...)
 		wb.files[sheet.Path] = out
 	} else {
 		// insert into the row, keeping cells in column order
-		reRow := regexp.MustCompile(`<row r="` + strconv.Itoa(row) + `"[^>]*>(.*?)</row>`)
+		reRow := regexp.MustCompile(`(?s)<` + q + `row r="` + strconv.Itoa(row) + `"[^>]*>(.*?)</` + q + `row>`)
 		rl := reRow.FindSubmatchIndex(xmlb)
 		if rl == nil {
 			return fmt.Errorf("row %d not found", row)
 		}
 		body := xmlb[rl[2]:rl[3]]
 		insertAt := rl[3]
-		for _, m := range regexp.MustCompile(`<c r="([A-Z]+)[0-9]+"`).FindAllSubmatchIndex(body, -1) {
+		for _, m := range regexp.MustCompile(`<`+q+`c r="([A-Z]+)[0-9]+"`).FindAllSubmatchIndex(body, -1) {
 			c, _ := colIndex(string(body[m[2]:m[3]]) + "1")
 			if c > col {
 				insertAt = rl[2] + m[0]
 				break
 			}
 		}
-		cell := `<c r="` + ref + `"><v>` + value + `</v></c>`
 		out := append([]byte{}, xmlb[:insertAt]...)
-		out = append(out, cell...)
+		out = append(out, cellXML("")...)
 		out = append(out, xmlb[insertAt:]...)
 		// widen the row's spans attribute so that readers which trust it see the new cell
-		rowTag := regexp.MustCompile(`<row r="` + strconv.Itoa(row) + `"[^>]*>`)
+		rowTag := regexp.MustCompile(`<` + q + `row r="` + strconv.Itoa(row) + `"[^>]*>`)
 		if tl := rowTag.FindIndex(out); tl != nil {
 			tag := string(out[tl[0]:tl[1]])
 			if m := regexp.MustCompile(`spans="(\d+):(\d+)"`).FindStringSubmatch(tag); m != nil {
